@@ -9,11 +9,13 @@
 package chk
 
 import (
+	"context"
 	"crypto/sha1"
 	"encoding/hex"
 	"encoding/json"
 	"fmt"
 	"os"
+	"os/exec"
 	"path/filepath"
 	"runtime"
 	"sort"
@@ -637,6 +639,41 @@ func Register(c *Check) { registry[c.ID] = c }
 // can take the whole process down (a panic on a goroutine of the library).
 var Modes = map[string]func(args []string){}
 
+// StallCount reports how many executions of this process ended by the
+// no-progress watchdog (set by the native harness).
+var StallCount = func() int64 { return 0 }
+
+var stallSeq int64
+
+// StallReproduces decides what a no-progress verdict (an execution that did not
+// end within its watchdog, a wall-clock observation) is worth: the input is run
+// once more in a fresh process of this binary (replay mode). Only a stall that
+// shows there as well is a finding; one that does not is reported as a note,
+// the run goes on and is no longer called exhaustive.
+func (r *Run) StallReproduces(kind string, input interface{}) bool {
+	doc := map[string]interface{}{"property": r.ID, "kind": kind, "key": "no-progress", "what": "stall probe", "tier": r.Tier, "seed": r.Seed, "input": input}
+	b, _ := json.Marshal(doc)
+	dir := filepath.Join(Root, "replays")
+	os.MkdirAll(dir, 0o755)
+	path := filepath.Join(dir, fmt.Sprintf(".stall-%d-%d.json", os.Getpid(), atomic.AddInt64(&stallSeq, 1)))
+	if err := os.WriteFile(path, b, 0o644); err != nil {
+		return true
+	}
+	defer os.Remove(path)
+	ctx, cancel := context.WithTimeout(context.Background(), 30*time.Minute)
+	defer cancel()
+	cmd := exec.CommandContext(ctx, os.Args[0], "replay", path)
+	cmd.Env = append(os.Environ(), "VERIF_SUB=", "VERIF_STALL_PROBE=1")
+	out, _ := cmd.CombinedOutput()
+	again := !strings.Contains(string(out), "STALL-PROBE:0")
+	if !again {
+		r.SetExhaustive(false)
+		r.AddTo("stalls_not_reproduced", 1)
+		fmt.Printf("NOTE: an execution made no progress within its watchdog (kind %s); the same input ran to its end in a fresh process, so this is not reported as a violation and the run is not called exhaustive\n", kind)
+	}
+	return again
+}
+
 func Main(args []string) {
 	if len(args) >= 1 && Modes[args[0]] != nil {
 		Modes[args[0]](args[1:])
@@ -664,6 +701,11 @@ func Main(args []string) {
 		ReplayProperty = doc.Property
 		bad, detail := c.Replay(doc.Kind, doc.Input)
 		fmt.Printf("replay %s kind=%s\n%s\n", doc.Property, doc.Kind, detail)
+		if os.Getenv("VERIF_STALL_PROBE") != "" {
+			// a run asks whether a stalled execution stalls again in a fresh process
+			fmt.Printf("STALL-PROBE:%d\n", StallCount())
+			os.Exit(0)
+		}
 		if bad {
 			r := New(doc.Property)
 			for _, f := range r.findings {
